@@ -14,7 +14,7 @@ from hypothesis import strategies as st
 from . import types as G
 
 FX = "vf.gen.fixtures."
-ORDER = ["pos", "posq", "rest", "pair", "many", "flag", "fn", "ty", "cnt", "short", "grp.v", "grp.w"]
+ORDER = ["pos", "posq", "rest", "pair", "many", "flag", "fn", "ty", "cnt", "short", "grp.v", "grp.w", "dc"]
 POSITIONALS = ("pos", "posq", "rest")
 SCALARS = {"int": int, "str": str, "float": float, "color": None}
 
@@ -40,6 +40,8 @@ def recipes():
         "short": st.fixed_dictionaries({"type": st.sampled_from(["str", "int"])}),
         "grp.v": st.fixed_dictionaries({"type": st.sampled_from(["int", "str"])}),
         "grp.w": st.fixed_dictionaries({"default": st.booleans()}),
+        # a dataclass-typed option given as ONE mapping: plain member, list member (also through an append key), subclass-typed member
+        "dc": st.fixed_dictionaries({"opt_default": st.sampled_from(["SubA", "Base"])}),
     }
     return st.tuples(st.fixed_dictionaries({}, optional=part), st.booleans()).filter(lambda t: len(t[0]) >= 2).map(
         lambda t: {"parts": {n: t[0][n] for n in ORDER if n in t[0]}, "env": t[1]})
@@ -95,6 +97,15 @@ def build(recipe, **kw):
             p.add_argument("--cnt", type=str, choices=["1", "b", "null", "c d"], default=s["default"])
         elif name == "short":
             p.add_argument("-s", "--short", type=_scalar_type(s["type"]), default=None)
+        elif name == "dc":
+            import dataclasses
+
+            DC = dataclasses.make_dataclass("KindsDC", [
+                ("n", int, 1), ("tags", List[str], dataclasses.field(default_factory=lambda: ["a"])),
+                ("opt", F.Base, dataclasses.field(default_factory=lambda: ({"class_path": FX + "SubA", "init_args": {"q": "z"}} if s["opt_default"] == "SubA" else {"class_path": FX + "Base"})))])
+            DC.__module__ = __name__
+            globals()["KindsDC"] = DC
+            p.add_argument("--dc", type=DC, default=DC())
         elif name in ("grp.v", "grp.w"):
             grp = grp or p.add_argument_group("Group of options")
             if name == "grp.v":
@@ -160,6 +171,19 @@ def values_for(recipe):
                 v[name] = draw(st.sampled_from(["1", "b", "null", "c d"]))
             elif name in ("short", "grp.v") and give:
                 v[name] = draw(_scalar_value(s["type"]))
+            elif name == "dc" and give:
+                m = {}
+                if draw(st.booleans()):
+                    m["n"] = draw(st.integers(0, 9))
+                k = draw(st.sampled_from([None, "tags", "tags+"]))
+                if k:
+                    m[k] = draw(st.lists(st.sampled_from(["b", "c", "1e3"]), max_size=2))
+                o = draw(st.sampled_from([None, {"class_path": FX + "SubB"}, {"class_path": FX + "SubA", "init_args": {"p": 7}}, {"init_args": {"p": 5}},
+                                          {"class_path": FX + "SubB", "init_args": {"r": [1.5]}}, {"class_path": FX + "Base"}]))
+                if o:
+                    m["opt"] = o
+                if m:
+                    v[name] = m
         # a value for `rest` can only be reached on the command line when the optional positional before it is filled
         if "rest" in v and v["rest"] and "posq" in parts and "posq" not in v:
             v["posq"] = draw(_scalar_value(parts["posq"]["type"], True))
@@ -272,10 +296,15 @@ def expected(recipe, name, v):
     return v
 
 
+NO_MODEL = ("dc",)  # parts whose result is only compared across channels
+
+
 def given_ok(recipe, values, cfg):
     """-> list of (name, expected, got) for given values that did not arrive typed-equal"""
     bad = []
     for name, v in values.items():
+        if name in NO_MODEL:
+            continue
         want = expected(recipe, name, v)
         try:
             got = cfg[dest(recipe, name)]
